@@ -32,6 +32,9 @@ type OiScript struct {
 	Replay  bool     `json:"replay"`
 	Pos     int      `json:"pos"`
 	UserSym []string `json:"userSym"`
+	// LoginXFF: the address the session logged in from when that is not the address the file is requested from (a
+	// client that moved after logging in): the token is bound to the address of the REQUEST it is issued for
+	LoginXFF string `json:"loginXFF,omitempty"`
 }
 
 func loginFor(cls, user string) *envx.Login {
@@ -321,15 +324,28 @@ func (i *Inst) runConnect(s *OiScript, tw *TraceWriter, rng *rand.Rand, store, u
 		}
 	case "authed":
 		l := loginFor("ok", user)
-		b.LoginID = i.IdP.Register(l)
+		lb := b
+		if s.LoginXFF != "" {
+			lb = i.NewBrowser("", s.LoginXFF)
+		}
+		lb.LoginID = i.IdP.Register(l)
 		// log in with a request that certainly passes host selection problems by: plain /connect may fail with 400 after login, which is fine
-		hops, err := b.Connect("", 6)
+		hops, err := lb.Connect("", 6)
 		if err != nil {
 			return err
 		}
 		_ = hops
 		sessionAT = l.AccessToken
-		b.LoginID = ""
+		lb.LoginID = ""
+		if lb != b {
+			// the session cookie moves with the client
+			for _, base := range []string{"http://127.0.0.1", "https://127.0.0.1", "http://[::1]", "https://[::1]"} {
+				u, _ := url.Parse(fmt.Sprintf("%s:%d/", base, i.P.Port))
+				if cs := lb.C.Jar.Cookies(u); len(cs) > 0 {
+					b.C.Jar.SetCookies(u, cs)
+				}
+			}
+		}
 	}
 	// the host parameter
 	now := time.Now().Unix()
